@@ -112,14 +112,27 @@ def run_history(item):
     #      session, the invariants on final-named files must still hold afterwards
     if ops[0][0] == "open" and not any(o[0] == "open" for o in ops[1:]):
         ops2_variants = [[("open", {"uuid": "restarted-session"}), ("w", 0, 3), ("close",)],
-                         [("open", {"uuid": "restarted-session"}), ("w", 0, 3), ("w", 40, 2), ("close",)]]
+                         [("open", {"uuid": "restarted-session"}), ("w", 0, 3), ("w", 40, 2), ("close",)],
+                         # the restarted recorder carries on with the block interface after its first write
+                         [("open", {"uuid": "restarted-session"}), ("w", 0, 3), ("wb", [40, 46], [0, 2], 4), ("wb", [60], [0], 3), ("close",)]]
         m2 = rf.Model()
         m2.open_session(rf.Cfg(**dict(cfg, uuid="restarted-session")))
-        for op in ops2_variants[1][1:3]:
-            g, b, length = rf.op_blocks(op, m2.cursor)
-            m2.apply_write(g, b, rf.row_bytes(rf.values_for(cfg, seed, g, b, length)))
+        m2w = {}
+        per_call = {}  # (variant, op index) -> samples that call writes if it is accepted
+        for vi, ops2_ in enumerate(ops2_variants):
+            mv = rf.Model()
+            mv.open_session(rf.Cfg(**dict(cfg, uuid="restarted-session")))
+            for oi, op in enumerate(ops2_):
+                if op[0] not in ("w", "wb"):
+                    continue
+                g, b, length = rf.op_blocks(op, mv.cursor)
+                before = set(mv.written)
+                mv.apply_write(g, b, rf.row_bytes(rf.values_for(cfg, seed, g, b, length)))
+                per_call[(vi, oi)] = {k: mv.written[k] for k in set(mv.written) - before}
+            m2w.update(mv.written)
+        m2.written.update(m2w)
         step = 1 if tier_is_thorough() else 2
-        for i, ops2 in [(i_, o_) for i_ in range(0, nops + 1, step) for o_ in ops2_variants]:
+        for i, vi, ops2 in [(i_, v_, o_) for i_ in range(0, nops + 1, step) for v_, o_ in enumerate(ops2_variants)]:
             top3 = core.new_scratch()
             try:
                 rk = host.run(top3, os.path.join(top3, cfg["ch"]), cfg, ops, seed, fsctl.plan(kill_at=i))
@@ -130,7 +143,19 @@ def run_history(item):
                 allowed = dict(final)
                 allowed.update(m2.written)
                 # (a re-recorded continuous file legitimately holds fill where only the dead session had data)
-                errs, _ = obs.observe(allowed, "after kill at op %d and a restarted session" % i, fill_ok=True)
+                errs, union4 = obs.observe(allowed, "after kill at op %d and a restarted session" % i, fill_ok=True)
+                # what the restarted session's calls accepted (returned normally) must be readable once it has
+                # closed cleanly and exited
+                if r4["status"] == 0 and r4["calls"] and r4["calls"][-1]["status"] == "ok":
+                    for c in r4["calls"]:
+                        want = per_call.get((vi, c["i"]))
+                        if want and c["status"] == "ok":
+                            miss = sorted(k for k in want if union4.get(k) != want[k])
+                            if miss:
+                                errs.append(({"class": "restarted_session_accepted_write_not_readable_after_close", "call": ops2[c["i"]][0]},
+                                             "after kill at op %d: restarted session's call %d %r returned normally and the session closed "
+                                             "cleanly, but samples %s are not readable" % (i, c["i"], ops2[c["i"]], miss[:4])))
+                                break
                 part["evaluations"] += 1
                 part["transitions"] += 1
                 part["states"].add(core.canon((label, "restart", i)))
